@@ -292,7 +292,8 @@ int main(int argc, char** argv) {
 
   if (fpp > 0 && !replay) { { Ev e_("Begin"); e_.i("seg", -1); out(e_); } fpp_events(g, fpp); }
 
-  const long nseg = replay ? (long)behs.size() : segments;
+  const bool directed_on = vt::argl(argc, argv, "--directed", 1) != 0;   // restore-then-continue at empty / one item / after reset
+  const long nseg = replay ? (long)behs.size() : segments + (directed_on ? 1 : 0);
   for (long seg = 0; seg < nseg; seg++) {
     { Ev e_("Begin"); e_.i("seg", seg); out(e_); }
     World w; g_w = &w;
@@ -341,10 +342,11 @@ int main(int argc, char** argv) {
         .h("reqSeedH", q.seed).i("n", n).i("pPm", pPm).i("need", (long long)bloom_filter::get_serialized_size_bytes(x.get_capacity()))
         .i("give", (long long)give).raw("r", proj(x)).il("membits", membits(w, m)); out(e_); }
     };
+    int force_path = -1;       // directed segment: 0 = bytes, 1 = stream
     auto do_deser = [&](int m, int f) {
       Region& R = w.m[m];
       const Img im = decode(R.buf.data(), R.buf.size());
-      const bool stream = g.chance(50);
+      const bool stream = force_path >= 0 ? force_path == 1 : g.chance(50);
       long long consumed;
       if (stream) {
         std::string in((const char*)R.buf.data(), im.len); in += std::string(16, '\x5a');
@@ -448,7 +450,10 @@ int main(int argc, char** argv) {
       bloom_filter& x = *w.s[f].f;
       bool thrown = false;
       try { if (uni) x.union_with(*w.s[gi].f); else x.intersect(*w.s[gi].f); } catch (const std::exception&) { thrown = true; }
-      Ev e(uni ? "Union" : "Intersect"); common(e, w, f).i("g", gi).str("out", thrown ? "throw" : "ok")
+      const bool lineage = w.s[gi].restored && !w.s[f].restored;     // a restored operand: the result continues its lineage (C09)
+      Ev e(uni ? "Union" : "Intersect"); common(e, w, f).i("g", gi).str("out", thrown ? "throw" : "ok");
+      if (lineage) { e.b("restored", true); if (!thrown) w.s[f].restored = true; }
+      e
         .b("compatible", x.is_compatible(*w.s[gi].f)).b("empty", x.is_empty()); out(e);
       if (!thrown) stale_siblings(w, f);
     };
@@ -473,6 +478,25 @@ int main(int argc, char** argv) {
     //   A = a writable view of m, dirty from plain updates;  B = writable_wrap(m) stores a clean count (reset / invert /
     //   query_and_update / union / intersect, sometimes after a recount);  A - now stale - keeps inserting with plain
     //   update();  C = wrap / writable_wrap / deserialize of m afterwards must see everything: query, bits_used, is_empty.
+    auto ev_ser = [&](int f, int m, unsigned hdr) {
+      Slot& S = w.s[f]; bloom_filter& x = *S.f; (void)S;
+      drop_views(w, m);
+      auto bytes = x.serialize(hdr);
+      std::ostringstream os; x.serialize(os); const std::string st = os.str();
+      const size_t size = bytes.size() - hdr;
+      const size_t adv = x.get_serialized_size_bytes();
+      Region& R = w.m[m];
+      std::fill(R.buf.begin(), R.buf.end(), (uint8_t)0xA5);
+      std::copy(bytes.begin() + hdr, bytes.end(), R.buf.begin());
+      R.live = true; R.len = size; R.from_ser = true;
+      bool hdr_zero = true; for (unsigned j = 0; j < hdr; j++) hdr_zero = hdr_zero && bytes[j] == 0;
+      const Img im = decode(R.buf.data(), size);
+      Ev e("Ser"); common(e, w, f).i("m", m).i("hdr", hdr).i("total", (long long)bytes.size()).i("size", (long long)size)
+        .i("advertised", (long long)adv).b("hdrZero", hdr_zero).bytes("img", R.buf.data(), size).bytes("simg", st.data(), st.size())
+        .b("imgOk", im.ok && im.ser == 1 && im.fam == 21 && im.pre == (im.empty ? 3u : 4u) && im.len == size)
+        .b("imgEmpty", im.empty).i("imgCap", (long long)im.longs * 64).i("imgHashes", im.hashes).h("imgSeedH", im.seed).il("bits", im.bits)
+        .b("empty", x.is_empty()); g_region = m; out(e);
+    };
     auto scenario = [&]() {
       const int m = (int)g.range(1, NM);
       int a = 0;
@@ -505,6 +529,54 @@ int main(int argc, char** argv) {
       }
     };
 
+    // ---- DIRECTED segment (first segment of every file): restore-then-continue at the boundary states -----------------
+    // For the EMPTY filter, a filter holding exactly ONE item and a filter right after reset(), the image is produced both by
+    // serialize() (bytes + stream + header forms) and as caller memory written by an initialize_by_size view, restored through
+    // every path (deserialize bytes, deserialize stream, wrap, writable_wrap), and then the restored object R continues IN
+    // LOCK-STEP with the original O: the same updates / query_and_updates, bits_used, queries, full observations, both used as
+    // union / intersect operands and targets, reset and updated again.  Every event is validated against the contract, which
+    // determines all observables exactly, so R must behave exactly like O (events on R carry "restored":true -> C09).
+    auto directed = [&]() {
+      w.force = true;
+      for (int state = 0; state < 3; state++) for (int kind = 0; kind < 2; kind++) for (int path = 0; path < 4; path++) {
+        for (int f = 1; f <= NF; f++) drop(w, f);
+        std::vector<Item> pre; for (int k = 0; k < (state == 0 ? 0 : state == 1 ? 1 : 3); k++) pre.push_back(real_item());
+        auto bring = [&](int f) { for (const Item& it : pre) ev_item(f, UPD, it); if (state == 2) ev_invreset(f, false); };
+        make_new(1); bring(1);                                                   // the original O
+        if (kind == 0) ev_ser(1, 2, HS[(state * 4 + path) % 7]);                 // image by serialize()
+        else { make_initmem(3, 2); bring(3); drop(w, 3); }                       // image = caller memory left by a view
+        w.m[2].from_ser = true;                                                  // objects restored from it are "restored"
+        force_path = path == 1 ? 1 : 0;
+        if (path <= 1) do_deser(2, 2); else do_wrap(2, 2, path == 3);
+        force_path = -1;
+        if (!w.s[2].f) continue;                                                 // writable_wrap of an empty image: refused
+        std::vector<Item> all = pre;
+        for (int k = 0; k < 3; k++) { all.push_back(real_item()); ev_item(1, UPD, all.back()); ev_item(2, UPD, all.back()); }
+        all.push_back(real_item()); ev_item(1, QAU, all.back()); ev_item(2, QAU, all.back());
+        ev_item(1, QAU, all[all.size() - 2]); ev_item(2, QAU, all[all.size() - 2]);
+        ev_bits_used(1); ev_bits_used(2);
+        ev_sweep(1, all); if (w.s[2].fresh) ev_sweep(2, all);
+        ev_obs(1); ev_obs(2);
+        make_new(3); ev_item(3, UPD, real_item());                               // a third filter: operands and targets
+        make_new(4); ev_item(4, UPD, all[0]);
+        ev_setop(3, 1, true); ev_setop(4, 2, true); ev_obs(3); ev_obs(4);        // O and R as union operands
+        ev_setop(1, 3, true); ev_setop(2, 3, true); ev_obs(1); ev_obs(2);        // ... and as union targets
+        ev_setop(3, 1, false); ev_setop(4, 2, false); ev_obs(3); ev_obs(4);      // intersect operands
+        ev_setop(1, 4, false); ev_setop(2, 4, false);                            // intersect targets
+        ev_bits_used(1); ev_bits_used(2); ev_obs(1); ev_obs(2);
+        ev_invreset(1, false); ev_invreset(2, false);                            // reset, then continue once more
+        all.push_back(real_item()); ev_item(1, UPD, all.back()); ev_item(2, UPD, all.back());
+        ev_sweep(1, all); if (w.s[2].fresh) ev_sweep(2, all);
+        ev_bits_used(1); ev_bits_used(2); ev_obs(1); ev_obs(2);
+        // the restored object serializes like the original from here on (bytes + stream forms, re-restored)
+        ev_ser(1, 1, 0); force_path = 0; do_deser(1, 3); ev_obs(3);
+        if (w.s[2].at != 2) { ev_ser(2, 2, 0); force_path = 1; do_deser(2, 4); ev_obs(4); }
+        force_path = -1;
+      }
+      for (int f = 1; f <= NF; f++) drop(w, f);
+      w.force = false;
+    };
+    if (directed_on && !replay && seg == 0) { directed(); continue; }
     if (replay) {
       // one behaviour = one segment: slot 1 = initialize_by_size(region 1), the model's steps with their expected results
       // attached (xo, xa, xn, xst), then the epilogue: every fresh view is asked for all three items, and a view created
@@ -556,7 +628,6 @@ int main(int argc, char** argv) {
         else if (g.chance(25)) drop(w, f); else do_wrap(m, f, g.chance(30) ? ro : !ro);
         continue;
       }
-      bloom_filter& x = *S.f;
       int op = (int)g.below(100);
       const int sp = serde_pct;             // Ser + Deser + Wrap + WWrap share
       if (op < sp) {
@@ -564,23 +635,7 @@ int main(int argc, char** argv) {
         if (k < 35) {                        // serialize f into a region
           const int m = (int)g.range(1, NM);
           if (S.at == m) continue;
-          drop_views(w, m);
-          const unsigned hdr = HS[g.below(7)];
-          auto bytes = x.serialize(hdr);
-          std::ostringstream os; x.serialize(os); const std::string st = os.str();
-          const size_t size = bytes.size() - hdr;
-          const size_t adv = x.get_serialized_size_bytes();
-          Region& R = w.m[m];
-          std::fill(R.buf.begin(), R.buf.end(), (uint8_t)0xA5);
-          std::copy(bytes.begin() + hdr, bytes.end(), R.buf.begin());
-          R.live = true; R.len = size; R.from_ser = true;
-          bool hdr_zero = true; for (unsigned j = 0; j < hdr; j++) hdr_zero = hdr_zero && bytes[j] == 0;
-          const Img im = decode(R.buf.data(), size);
-          Ev e("Ser"); common(e, w, f).i("m", m).i("hdr", hdr).i("total", (long long)bytes.size()).i("size", (long long)size)
-            .i("advertised", (long long)adv).b("hdrZero", hdr_zero).bytes("img", R.buf.data(), size).bytes("simg", st.data(), st.size())
-            .b("imgOk", im.ok && im.ser == 1 && im.fam == 21 && im.pre == (im.empty ? 3u : 4u) && im.len == size)
-            .b("imgEmpty", im.empty).i("imgCap", (long long)im.longs * 64).i("imgHashes", im.hashes).h("imgSeedH", im.seed).il("bits", im.bits)
-            .b("empty", x.is_empty()); g_region = m; out(e);
+          ev_ser(f, m, HS[g.below(7)]);
         } else {
           const int m = pick_live_region(); if (m == 0) continue;
           int t = (int)g.range(1, NF);       // target slot (may be occupied: replaced)
